@@ -9,7 +9,7 @@ CONSTANTS
   IMPL = "loop"
   HAVE0 = {0}
   REQS <- REQS_A
-  CANS <- NONE
+  CANS <- REQS_1
   AFP = {0}
   NSEND = 3
   NFLIP = 1
